@@ -191,13 +191,30 @@ def build(cfg, f=None, op=None):
         sa = C["dimwise"](a, b, version=cfg.get("version", 6), operation=op, norm=norm, print_level=100, log_level=100)
     else:
         if op is None:
-            grid = TrapezoidalGrid(a, b, boundary=True, modified_basis=False)
+            kind = cfg.get("grid", "trapezoidal")
+            if kind == "gauss_legendre":        # points of different levels are NOT nested
+                from sparseSpACE.Grid import GaussLegendreGrid
+                grid = GaussLegendreGrid(a, b)
+            elif kind == "clenshaw_curtis":
+                from sparseSpACE.Grid import ClenshawCurtisGrid
+                grid = ClenshawCurtisGrid(a, b, boundary=True)
+            else:
+                grid = TrapezoidalGrid(a, b, boundary=True, modified_basis=False)
             op = Integration(f, grid=grid, dim=dim, reference_solution=ref)
         eo = ErrorCalculatorExtendSplit()
         sa = C["extend_split"](a, b, version=cfg.get("version", 0), operation=op, norm=norm)
         sa.log_util.set_print_level(100)
         sa.log_util.set_log_level(100)
+    if cfg.get("recalc"):
+        # recalculate_frequently=True (see run_kwargs) with a lowered threshold, so that refine() takes its "evaluate
+        # everything again from scratch" branch after a few refined objects instead of after 100
+        sa.refinements_for_recalculate = int(cfg["recalc"])
     return sa, eo, f
+
+
+def run_kwargs(cfg):
+    """options of performSpatiallyAdaptiv that belong to the configuration"""
+    return {"recalculate_frequently": True} if cfg.get("recalc") else {}
 
 
 def run_impl(cfg, limits, prior=None):
@@ -220,11 +237,14 @@ def run_impl(cfg, limits, prior=None):
             else:
                 sa1, eo1 = sa, eo
             quiet(sa1.performSpatiallyAdaptiv, 1, cfg["lmax"], eo1, tol=L1["tol"], max_evaluations=L1["max"],
-                  min_evaluations=L1["min"], print_output=False)
+                  min_evaluations=L1["min"], print_output=False, **run_kwargs(cfg1))
             if prior["kind"] == "new_object":
                 sa, eo, _ = build(cfg, op=sa1.operation)
             elif prior["kind"] == "shared_function":
                 sa, eo, _ = build(cfg, f=f)
+        except Runaway:
+            # the EARLIER run was cut by the guards of the harness: no statement about the run under test
+            return {"sa": sa, "f": f, "status": "prior-cut", "ret": None, "log": [], "exc": None}
         except Exception as e:  # noqa: BLE001
             return {"sa": sa, "f": f, "status": "exception", "ret": None, "log": [],
                     "exc": "in the earlier run: %s: %s" % (type(e).__name__, e)}
@@ -234,7 +254,8 @@ def run_impl(cfg, limits, prior=None):
     out = {"sa": sa, "f": f, "status": "ok", "ret": None, "exc": None}
     try:
         out["ret"] = quiet(sa.performSpatiallyAdaptiv, 1, cfg["lmax"], eo, tol=limits["tol"],
-                           max_evaluations=limits["max"], min_evaluations=limits["min"], print_output=False)
+                           max_evaluations=limits["max"], min_evaluations=limits["min"], print_output=False,
+                           **run_kwargs(cfg))
     except Runaway:
         out["status"] = "runaway"
     except Exception as e:  # noqa: BLE001
@@ -339,7 +360,8 @@ def check_run(ctx, drv, cfg, limits, scout_stream=None, tag_extra=None, prior=No
         case["prior"] = prior
     rclass = ref_class(reference_of(cfg, make_f(cfg)))
     tags = {"strategy": cfg["strategy"], "ref": rclass, "norm": cfg["norm"], "dim": cfg["dim"],
-            "outputs": len(cfg["coeffs"]), "scale": cfg.get("scale", 1.0), "cache": cfg.get("cache", True)}
+            "outputs": len(cfg["coeffs"]), "scale": cfg.get("scale", 1.0), "cache": cfg.get("cache", True),
+            "grid": cfg.get("grid", "default"), "recalc": cfg.get("recalc")}
     ctx.count("refclass_" + rclass)
     tags["history"] = prior["kind"] if prior else "fresh"
     if tag_extra:
@@ -362,6 +384,9 @@ def check_run(ctx, drv, cfg, limits, scout_stream=None, tag_extra=None, prior=No
     evals = [e for e in log if e["kind"] == "eval"]
     n_eval = len(evals)
     n_ref = sum(1 for e in log if e["kind"] == "refine")
+    if out["status"] == "prior-cut":
+        ctx.count("earlier_run_cut_by_guard")
+        return True, None
     if out["status"] == "exception":
         viol("run-raises", {"exception": out["exc"]})
         return False, None
@@ -523,6 +548,11 @@ def gen_cfg(rng, thorough, strategy=None):
            "norm": rng.choice(["inf", "1", "2"]), "scale": scale, "cache": rng.random() >= 0.2}
     if strategy == "dimwise":
         cfg["version"] = rng.choice([6, 6, 2, 3])
+    elif dim == 2:
+        # extend-split also on grids whose points are not nested across levels / areas (refined-away points leave the grid)
+        cfg["grid"] = rng.choice(["trapezoidal", "trapezoidal", "trapezoidal", "gauss_legendre", "gauss_legendre", "clenshaw_curtis"])
+    # recalculate_frequently=True with the threshold lowered to 1-3 refined objects: refine() re-evaluates everything
+    cfg["recalc"] = rng.choice([None, None, None, 1, 2, 3])
     return cfg
 
 
@@ -555,7 +585,8 @@ def gen_limits(rng, stream, k):
 def run(ctx):
     thorough = ctx.tier == "thorough"
     ctx.rule = ("complete adaptive Integration runs (dimension-wise+GlobalTrapezoidalGrid versions 2/3/6, extend-split+TrapezoidalGrid; dim 2-3, "
-                "lmin 1, lmax 2-3; dyadic polynomial integrands with 1-3 outputs, scaled by 1 / 1e-10 / 1e-12 / 2^-34 / 2^-45 / 1e8 / 2^27, value cache on or "
+                "extend-split in 2-D also on GaussLegendreGrid / ClenshawCurtisGrid; recalculate_frequently with refinements_for_recalculate 1-3 in half "
+                "of the configurations; lmin 1, lmax 2-3; dyadic polynomial integrands with 1-3 outputs, scaled by 1 / 1e-10 / 1e-12 / 2^-34 / 2^-45 / 1e8 / 2^27, value cache on or "
                 "deactivated; reference exact/perturbed/zero/partially zero/none; norms inf,1,2); "
                 "a scout run (tol=-1) gives the stream, limits (tol,min,max) are then put exactly on its boundaries incl. limits met at the first "
                 "evaluation; in 40 % of the runs the same strategy object / the same Integration operation with a new strategy object / the same Function "
@@ -578,10 +609,13 @@ def run(ctx):
             break
         cfg = gen_cfg(ctx.rng, thorough)
         cap = ctx.rng.choice([60, 90, 130, 180] if cfg["dim"] == 2 else [120, 200, 300])
+        if cfg.get("grid") == "gauss_legendre":
+            cap = ctx.rng.choice([350, 600, 900])      # 80 points at the first evaluation, several hundred per refinement
         scout_limits = {"tol": -1.0, "min": 1, "max": cap}
         ok, stream = check_run(ctx, drv, cfg, scout_limits)
         ctx.count("strategy_" + cfg["strategy"]); ctx.count("ref_" + cfg["ref"]); ctx.count("norm_" + cfg["norm"])
         ctx.count("dim_%d" % cfg["dim"]); ctx.count("outputs_%d" % len(cfg["coeffs"]))
+        ctx.count("grid_" + cfg.get("grid", "trapezoidal" if cfg["strategy"] == "extend_split" else "global_trapezoidal")); ctx.count("recalc_%s" % cfg.get("recalc"))
         ctx.count("scale_" + ("1" if cfg["scale"] == 1.0 else ("tiny" if cfg["scale"] < 1 else "huge"))); ctx.count("cache_%s" % cfg["cache"])
         ctx.case({"cfg": cfg, "limits": scout_limits}, nontrivial=bool(stream and len(stream) > 1),
                  sample={"cfg": cfg, "limits": scout_limits, "points": [x[1] for x in (stream or [])]} if k < 2 else None)
@@ -604,6 +638,8 @@ def run(ctx):
                          "limits": {"tol": -1.0, "min": 1, "max": stream[j][1] - ctx.rng.choice([0, 1])}}
                 if prior["kind"] == "shared_function" and ctx.rng.random() < 0.5:
                     prior["strategy"] = "dimwise" if cfg["strategy"] == "extend_split" else "extend_split"
+                    # (the other strategy needs far more evaluations for the point counts of a Gauss-Legendre stream)
+                    prior["limits"]["max"] = min(prior["limits"]["max"], 300)
             ctx.count("history_" + (prior["kind"] if prior else "fresh"))
             # (a dimension-wise strategy OBJECT that runs twice does not repeat the run of a fresh object -- its level caches
             #  survive performSpatiallyAdaptiv --, so the scout stream predicts nothing there; the property's clauses and the
